@@ -83,7 +83,9 @@ def label_of(stmt):
 
 _BATON = [None]
 # fault-assisted scenarios: thread `tid` loses a duplicate-key race at its next `left` statements containing `match`
-FAULT = {'tid': None, 'match': '', 'left': 0}
+FAULT = {'tid': None, 'match': '', 'left': 0, 'crash_at': None, 'seen': 0}
+# crash mode (C18, raced requests): thread `tid` dies (BaseException, its transaction in flight rolled back with its connection)
+# before its `crash_at`-th statement (counted from 0 over all statements the thread issues)
 
 
 def _on_stmt(index, stmt, params):
@@ -132,6 +134,10 @@ def _install():
             return
         _on_stmt(0, st, parameters)
         f = FAULT
+        if f.get('crash_at') is not None and getattr(TL, 'tid', None) == f['tid']:
+            f['seen'] += 1
+            if f['seen'] - 1 == f['crash_at']:
+                raise impl.Crash('process died before statement %d of thread %d' % (f['crash_at'], f['tid']))
         if f['left'] > 0 and getattr(TL, 'tid', None) == f['tid'] and f['match'] in st:
             # a duplicate-key race lost by this thread: the statement fails, the enclosing transaction is rolled back
             f['left'] -= 1
